@@ -190,11 +190,10 @@ impl<T: Clone + 'static> Stream for VectorSubscriberBatchedStream<T> {
         let poll = match result {
             Ok(msg) => {
                 let mut batch = msg.diffs.into_vec();
+                #[cfg(eyeball_verif)]
+                let mut rx = crate::verif::HookedReceiver(&mut rx);
                 loop {
-                    let received = rx.try_recv();
-                    #[cfg(eyeball_verif)]
-                    crate::verif::after_try_recv(&received);
-                    match received {
+                    match rx.try_recv() {
                         Ok(msg) => append(&mut batch, msg.diffs),
                         Err(TryRecvError::Empty | TryRecvError::Closed) => {
                             break Poll::Ready(Some(batch));
@@ -221,11 +220,10 @@ impl<T: Clone + 'static> Stream for VectorSubscriberBatchedStream<T> {
 
 fn handle_lag<T: Clone + 'static>(rx: &mut Receiver<BroadcastMessage<T>>) -> Option<Vector<T>> {
     let mut msg = None;
+    #[cfg(eyeball_verif)]
+    let mut rx = crate::verif::HookedReceiver(rx);
     loop {
-        let received = rx.try_recv();
-        #[cfg(eyeball_verif)]
-        crate::verif::after_try_recv(&received);
-        match received {
+        match rx.try_recv() {
             // There's a newer message in the receiver's buffer, use that for reset.
             Ok(m) => {
                 msg = Some(m);
